@@ -142,6 +142,15 @@ def _iter_toplevel(stmts):
     fallbacks, TYPE_CHECKING blocks)."""
     for s in stmts:
         if isinstance(s, ast.If):
+            t = s.test
+            if (isinstance(t, ast.Name) and t.id == 'TYPE_CHECKING') or (isinstance(t, ast.Attribute) and t.attr == 'TYPE_CHECKING'):
+                # typing-only block: keep its imports (name resolution), ignore
+                # its stubs (they are not the runtime definitions)
+                for x in _iter_toplevel(s.body):
+                    if isinstance(x, (ast.Import, ast.ImportFrom)):
+                        yield x
+                yield from _iter_toplevel(s.orelse)
+                continue
             yield from _iter_toplevel(s.body)
             yield from _iter_toplevel(s.orelse)
         elif isinstance(s, ast.Try):
